@@ -77,6 +77,7 @@ def run(tier, seed):
                     continue
                 done += 1
                 orig_id = spec.sha256d(blk.header.serialize())
+                cs_with = cs.add_block(blk, ts)      # the same chain once it already holds the genuine block
                 ops = []
                 impl_codes = []
                 chain_views = [m.view for m in par.chain()]
@@ -95,6 +96,19 @@ def run(tier, seed):
                         ck.case((orig_id, kind, pos), kind='%s/%s' % (kind, 'accepted' if code == [1] else 'rejected'),
                                 sample={'block_len': len(bs), 'alteration': kind, 'position': pos, 'verdict': code}
                                 if len(ck.samples) < 4 and kind == 'flip' and pos % 977 == 0 else None)
+                        if code != [1] and spec.sha256d(ablk.header.serialize()) == orig_id:
+                            # same header, different content: must also be refused by a chain that already holds the
+                            # genuine block (no second content under the same id)
+                            v2, _ = consensus_check.impl_verdict(cs_with, ablk, ts)
+                            ck.count('same-header-variant-offered-to-chain-holding-genuine-block')
+                            if v2 == [1]:
+                                ck.violation('altered-block-accepted-same-id-when-genuine-known',
+                                             'a block altered by a %s at %s %d (same header, different content) is accepted by '
+                                             'full validation on the chain that already holds the genuine block'
+                                             % (kind, 'bit' if kind == 'flip' else 'length', pos),
+                                             {'label': 'altered', 'prefix': [m.block.serialize().hex() for m in nodes] + [bs.hex()],
+                                              'block': alt.hex(), 'now': ts, 'period': env.period, 'span': env.span,
+                                              'interval': env.interval})
                         if code == [1]:
                             same_id = (spec.sha256d(ablk.header.serialize()) == orig_id)
                             ck.violation('altered-block-accepted' + ('-same-id' if same_id else ''),
